@@ -1,4 +1,5 @@
 "C10 — CSS matcher returns the innermost rule or declaration with exact ranges"
+import os
 from hypothesis import strategies as st
 from vlib import core, gen_css as GC
 from vlib.core import guard
@@ -163,3 +164,9 @@ def shard_random(ctx, shard, nshards, n):
 def run(ctx):
     ctx.run_cases('doc', FIXED)
     ctx.run_parallel('shard_random', extra=(ctx.pick(12, 300),))
+    if ctx.thorough or os.environ.get('VERIF_FUZZ'):
+        ctx.run_atheris('doc', ctx.pick(200, 2500), guided=True)
+
+
+# coverage-guided layer (thorough tier): the Hypothesis strategy under libFuzzer (vlib/fuzz.py, guided mode)
+GUIDED = {'doc': lambda: GC.documents(False).map(lambda d: {'doc': d})}
